@@ -184,11 +184,31 @@ def extra_checks(runner, rng, tier, stats, seed):
             continue
         path = vlib.write_replay(ID, "C15_%s_tls_close.replay" % tier,
                                  "property: C15\nkind: impl-spec-failure (library TLS socket destroyed while congested, with unread input)\n"
-                                 "harness: harness/scen/tls_close.cpp (flavour tls)\nops: %s\nobserved:\n  %s\n" % (ops, "\n  ".join(tr)))
+                                 "seed: %s   tier: %s   repo_tree: %s\nharness: extra:tls_close\ncase: %s\n"
+                                 "verdict: every byte Send reported must reach the peer before the closure is reported\n"
+                                 "(harness/scen/tls_close.cpp, flavour tls, real loopback; ./check C15 --replay <this file> runs it again)\n"
+                                 "ops:\n%s\ntranscript (implementation):\n%s\n"
+                                 % (seed, tier, vlib.repo_tree_hash(), cid, "\n".join("  " + o for o in ops), "\n".join("  " + t for t in tr)))
         out.append(("spec", path, True, "orderly close of a congested TLS sender: " + " ".join(tr)[-300:]))
         break
     stats["tls_close_runs"] = n
     return out
+
+
+def replay_extra(name, ops):
+    """./check C15 --replay <file> for a replay written by extra_checks"""
+    import os
+    import vlib
+    if name != "tls_close":
+        print("unknown standalone scenario %r" % name)
+        return 2
+    exe = vlib.build_harness("tls_close", "tls", ["scen/tls_close.cpp"], libs=["-lssl", "-lcrypto"])
+    res = vlib.run_cases(exe, [("replay", ops)], jobs=1, env={"VERIF_CERTS": os.path.join(vlib.HARNESS, "certs")}, timeout_per_case=60)
+    tr = res.get("replay", [])
+    print("\n".join(tr))
+    ok = any(l.startswith("-> ok") for l in tr)
+    print("verdict:", "ok" if ok else "FAIL")
+    return 0 if ok else 1
 
 
 def extra_coverage(stats):
